@@ -68,7 +68,12 @@ def twin_history(ctx, r, n_cmds, legacy=False, torn=False):
             ga, gb = A.graph(), B.graph()
             if "err" in ga or "err" in gb:
                 ctx.violation("C05 store unreadable", "%s / %s" % (ga.get("err"), gb.get("err")), {"trace": trace}); return
-            if ra["exit"] != rb["exit"] or cmdrun.classify_stderr(ra["stderr"]) != cmdrun.classify_stderr(rb["stderr"]) or timeless(ga["graph"]) != timeless(gb["graph"]):
+            # compaction drops tombstones: docs/spec.md says a pruned id "may no longer be distinguishable from never existed" afterwards, so a
+            # refusal may read `unknown …` where it read `pruned` — one class here (DESIGN §5, interpretation of C09); everything else must match
+            def ecls(res):
+                c = cmdrun.classify_stderr(res["stderr"])
+                return "not-a-live-id" if c in ("pruned", "unknown_task", "unknown_id", "unknown_epic", "no_such_epic") else c
+            if ra["exit"] != rb["exit"] or ecls(ra) != ecls(rb) or timeless(ga["graph"]) != timeless(gb["graph"]):
                 d = fndiff.first_difference(timeless(ga["graph"]), timeless(gb["graph"]))
                 ctx.violation("C05 command after compact behaves differently (%s)" % req["cmd"],
                               "with vs without earlier compaction: exit %s/%s, first difference %s" % (ra["exit"], rb["exit"], d), {"trace": trace}); return
